@@ -293,11 +293,13 @@ impl Prop for C15 {
         let (ylo, yhi) = shard_range(9997, shard, nshards);
         let (ylo, yhi) = (ylo as i64 + 2, yhi as i64 + 1);
         let ts = ensure(ylo - 1, yhi + 1);
+        let mut rev = Reverse::new(5);
         for y in ylo..=yhi {
           let full = env.tier == Tier::Thorough || y % 50 == (env.seed % 50) as i64 || SPECIAL_YEARS.contains(&y);
           if full {
             for i in c.year_start[y as usize] as usize..c.year_start[y as usize + 1] as usize {
               run_case(env, out, "day", &Case::ints(&[i as i64]), &ev);
+              rev.note("day", &Case::ints(&[i as i64]));
             }
           } else if y % 4 == (env.seed % 4) as i64 {
             let mut b = boundary_days(&ts, y);
@@ -306,10 +308,12 @@ impl Prop for C15 {
             for j in b {
               if let Some(i) = c.index_of_jdn(j) {
                 run_case(env, out, "day", &Case::ints(&[i as i64]), &ev);
+                rev.note("day", &Case::ints(&[i as i64]));
               }
             }
           }
         }
+        rev.run(env, out, &ev);
         out.set_exhaustive("day", env.tier == Tier::Thorough);
       }
       _ => panic!("unknown task {}", t),
